@@ -3,10 +3,14 @@ module verif/harness
 go 1.26.0
 
 require (
-	golang.org/x/crypto v0.0.0
+	golang.org/x/crypto v0.54.0
 	pgregory.net/rapid v1.3.0
 )
 
-require golang.org/x/sys v0.47.0 // indirect
+require (
+	golang.org/x/net v0.57.0 // indirect
+	golang.org/x/sys v0.47.0 // indirect
+	golang.org/x/text v0.41.0 // indirect
+)
 
 replace golang.org/x/crypto => /repo
